@@ -7,6 +7,7 @@ import (
 	"context"
 	"errors"
 	"fmt"
+	"io"
 	"math/big"
 	"sort"
 	"strings"
@@ -50,8 +51,10 @@ type Store struct {
 	Calls    []StoreCall
 	// FailAt > 0: the FailAt-th call (1-based, balances and metadata counted together) fails
 	// with FailMsg.
-	FailAt  int
-	FailMsg string
+	FailAt int
+	// FailShape selects the shape of the injected error value (see failErr)
+	FailShape int
+	FailMsg   string
 	// OnBalances, if set, is called at the start of GetBalances (used to overlap concurrent
 	// runs).
 	OnBalances func()
@@ -140,6 +143,30 @@ func copyQuery(q map[string][]string) map[string][]string {
 	return out
 }
 
+// storeFailure is an error type of the store's own that wraps a cause.
+type storeFailure struct {
+	msg   string
+	cause error
+}
+
+func (e *storeFailure) Error() string { return e.msg }
+func (e *storeFailure) Unwrap() error { return e.cause }
+
+// failErr is the injected failure; its shape (plain, wrapping another error with %w, a type of
+// the store's own with Unwrap, joined errors) varies with FailShape. Its message always contains
+// FailMsg.
+func (s *Store) failErr() error {
+	switch s.FailShape % 4 {
+	case 1:
+		return fmt.Errorf("%s: %w", s.FailMsg, context.DeadlineExceeded)
+	case 2:
+		return &storeFailure{msg: s.FailMsg, cause: fmt.Errorf("connection reset: %w", io.ErrUnexpectedEOF)}
+	case 3:
+		return errors.Join(errors.New(s.FailMsg), io.EOF)
+	}
+	return errors.New(s.FailMsg)
+}
+
 func (s *Store) GetBalances(ctx context.Context, q numscript.BalanceQuery) (numscript.Balances, error) {
 	if s.OnBalances != nil {
 		s.OnBalances()
@@ -148,7 +175,7 @@ func (s *Store) GetBalances(ctx context.Context, q numscript.BalanceQuery) (nums
 	if s.FailAt > 0 && call.Seq == s.FailAt {
 		call.Failed = true
 		s.Calls = append(s.Calls, call)
-		return nil, errors.New(s.FailMsg)
+		return nil, s.failErr()
 	}
 	var out numscript.Balances
 	switch s.Kind {
@@ -224,7 +251,7 @@ func (s *Store) GetAccountsMetadata(ctx context.Context, q numscript.MetadataQue
 	if s.FailAt > 0 && call.Seq == s.FailAt {
 		call.Failed = true
 		s.Calls = append(s.Calls, call)
-		return nil, errors.New(s.FailMsg)
+		return nil, s.failErr()
 	}
 	var out numscript.AccountsMetadata
 	switch s.Kind {
@@ -417,7 +444,7 @@ func fill(o *Outcome, res numscript.ExecutionResult, err numscript.InterpreterEr
 		if amt == nil {
 			amt = new(big.Int)
 		}
-		o.Postings = append(o.Postings, Posting{p.Source, p.Destination, p.Asset, new(big.Int).Set(amt)})
+		o.Postings = append(o.Postings, Posting{p.Source, p.Destination, p.Asset, normalised(amt)})
 	}
 	o.TxMeta = res.Metadata
 	o.AcctMeta = map[string]map[string]string{}
@@ -427,6 +454,21 @@ func fill(o *Outcome, res numscript.ExecutionResult, err numscript.InterpreterEr
 			o.AcctMeta[a][k] = v
 		}
 	}
+}
+
+// normalised copies a number read from a result. A big.Int whose digit slice carries leading zero
+// words (which in-place arithmetic on a shared digit array can produce, and on which Sign, Cmp
+// and String disagree or panic) is read by its digits: such a "positive zero" is zero.
+func normalised(x *big.Int) *big.Int {
+	bits := append([]big.Word(nil), x.Bits()...)
+	for len(bits) > 0 && bits[len(bits)-1] == 0 {
+		bits = bits[:len(bits)-1]
+	}
+	z := new(big.Int).SetBits(bits)
+	if x.Sign() < 0 && len(bits) > 0 {
+		z.Neg(z)
+	}
+	return z
 }
 
 // Summarize renders a raw (result, error) pair like Outcome.Summary.
